@@ -151,7 +151,7 @@ class C05(Check):
             else:
                 beta = sx.sym("beta")
                 bt = sx.term(beta)
-                ctx.add_assume(z3.And(bt > 0, bt <= 1))
+                ctx.add_assume(z3.And(bt >= 0, bt <= 1))  # both ends of the ladder included
                 out = sx.asarray(smp.log_prob(z, beta))
             ctx.prove(out.shape == (b,), "shape")
             # specification: evaluate at the pre-image the transform returned
@@ -268,7 +268,9 @@ class C05(Check):
                 beta = sx.sym("beta")
                 bt = sx.term(beta)
                 one, zero = sx.OPS.const(1.0), sx.OPS.const(0.0)
-                ctx.add_assume(z3.And(z3.fpGT(bt, zero), z3.fpLEQ(bt, one)))
+                # both ends of the ladder included: at beta = 0 the product 0 * (-inf) of the
+                # tempered value is NaN and must come out as -inf like everywhere else
+                ctx.add_assume(z3.And(z3.fpGEQ(bt, zero), z3.fpLEQ(bt, one)))
                 out = sx.asarray(smp.log_prob(z, beta))
             o = sx.terms(out)
             P = sx.terms(F.values["P"][0])
